@@ -99,7 +99,11 @@ outer:
 	if trace.RootSpan != nil {
 		for _, field := range d.rootOnlyFields {
 			if trace.RootSpan.Data.Exists(field) {
-				d.keyBuilder.WriteString(fmt.Sprintf("%v,", trace.RootSpan.Data.Get(field)))
+				// render the value exactly like a non-root field value, so that the key does
+				// not depend on the numeric type the wire encoding happened to produce
+				var scratch [64]byte
+				d.keyBuilder.Write(appendValueAsString(scratch[:0], trace.RootSpan.Data.Get(field)))
+				d.keyBuilder.WriteRune(',')
 				fieldCount += 1
 			}
 		}
@@ -166,27 +170,37 @@ func (d *distinctValue) Values(fieldIdx int) []string {
 	return d.valuesBuffer
 }
 
+// appendValueAsString appends the key representation of a field value. Numerically equal
+// values get the same text whatever Go type the wire encoding decoded to (JSON numbers are
+// float64, msgpack integers int64 or uint64, msgpack floats float32 or float64).
+func appendValueAsString(buf []byte, value any) []byte {
+	switch v := value.(type) {
+	case string:
+		buf = append(buf, []byte(v)...)
+	case int:
+		buf = strconv.AppendInt(buf, int64(v), 10)
+	case int64:
+		buf = strconv.AppendInt(buf, v, 10)
+	case uint64:
+		buf = strconv.AppendUint(buf, v, 10)
+	case float64:
+		buf = strconv.AppendFloat(buf, v, 'f', -1, 64)
+	case float32:
+		buf = strconv.AppendFloat(buf, float64(v), 'f', -1, 64)
+	case bool:
+		buf = strconv.AppendBool(buf, v)
+	case nil:
+		buf = append(buf, "<nil>"...)
+	default:
+		buf = append(buf, fmt.Sprintf("%v", v)...)
+	}
+	return buf
+}
+
 // AddAsString adds a value to the distinct values for a given field index.
 // It returns true if the value was added, false if it was already present or if the maxDistinctValue limit was reached.
 func (d *distinctValue) AddAsString(value any, fieldIdx int) bool {
-	d.buf = d.buf[:0] // reset the buffer for each new value
-
-	switch v := value.(type) {
-	case string:
-		d.buf = append(d.buf, []byte(v)...)
-	case int:
-		d.buf = strconv.AppendInt(d.buf, int64(v), 10)
-	case int64:
-		d.buf = strconv.AppendInt(d.buf, v, 10)
-	case float64:
-		d.buf = strconv.AppendFloat(d.buf, v, 'f', -1, 64)
-	case bool:
-		d.buf = strconv.AppendBool(d.buf, v)
-	case nil:
-		d.buf = append(d.buf, "<nil>"...)
-	default:
-		d.buf = append(d.buf, fmt.Sprintf("%v", v)...)
-	}
+	d.buf = appendValueAsString(d.buf[:0], value) // reset the buffer for each new value
 
 	hash := wyhash.Hash(d.buf, 0)
 	if _, exists := d.values[fieldIdx][hash]; !exists {
